@@ -400,7 +400,12 @@ class Machine:
         self.trace.append("delete_vertices(%r)" % (vs,))
         if self.added:
             self.ctx.label("delete-after-add")
-        self.fsa.delete_vertices(list(vs))
+        # the vertices to delete as a list, a tuple, a set, or a one-shot iterator
+        how = (len(self.trace) + len(vs)) % 4
+        arg = [list(vs), tuple(vs), iter(list(vs)), (x for x in vs)][how]
+        if how >= 2:
+            self.ctx.label("delete_vertices(iterator)")
+        self.fsa.delete_vertices(arg)
         for x in vs:
             self.m.delete_vertex(x)
 
